@@ -28,6 +28,10 @@ type Rec struct {
 	Hold <-chan struct{}
 	// Session label (to tell sessions apart on the tape).
 	Session string
+	// SelfParty, when set, is the party identifier this instance stands for
+	// (harness knowledge from the membership map); otherwise the factory
+	// argument is used. Payloads carry it as sender.
+	SelfParty *uint16
 
 	w        stack.CtxWaiter
 	parties  []uint16
@@ -137,6 +141,13 @@ func (r *Rec) ThresholdPK() ([]byte, error) {
 	return []byte("rec-pk"), nil
 }
 
+func (r *Rec) self() uint16 {
+	if r.SelfParty != nil {
+		return *r.SelfParty
+	}
+	return r.Party
+}
+
 func (r *Rec) run(ctx context.Context) error {
 	defer func() {
 		r.w.Mu.Lock()
@@ -147,17 +158,17 @@ func (r *Rec) run(ctx context.Context) error {
 	seq := uint8(0)
 	for _, ph := range r.Script {
 		for i := 0; i < ph.Bcasts; i++ {
-			p := RecPayload(true, ph.Round, r.Party, seq, fmt.Sprintf("b%d", i))
+			p := RecPayload(true, ph.Round, r.self(), seq, fmt.Sprintf("b%d;n%d", i, r.Node))
 			seq++
 			r.Tape.add(Event{Kind: "emit", Node: r.Node, Party: r.Party, Session: r.Session, Bcast: true, Payload: p})
 			r.send(p, true, 0)
 		}
 		if ph.P2P {
 			for _, q := range r.parties {
-				if q == r.Party {
+				if q == r.self() {
 					continue
 				}
-				p := RecPayload(false, ph.Round, r.Party, seq, fmt.Sprintf("to%d", q))
+				p := RecPayload(false, ph.Round, r.self(), seq, fmt.Sprintf("to%d;n%d", q, r.Node))
 				seq++
 				r.Tape.add(Event{Kind: "emit", Node: r.Node, Party: r.Party, Session: r.Session, Bcast: false, To: q, Payload: p})
 				r.send(p, false, q)
@@ -166,7 +177,7 @@ func (r *Rec) run(ctx context.Context) error {
 		ph := ph
 		if err := r.w.WaitFor(ctx, func() bool {
 			for _, q := range r.parties {
-				if q == r.Party {
+				if q == r.self() {
 					continue
 				}
 				if r.got[fmt.Sprintf("%d/%d/1", ph.Round, q)] < ph.Bcasts {
@@ -209,4 +220,10 @@ func (r *Rec) Sign(ctx context.Context, digest []byte) ([]byte, error) {
 // DefaultScript: two broadcast rounds with a point-to-point exchange in the first.
 func DefaultScript() []Phase {
 	return []Phase{{Round: 1, Bcasts: 1, P2P: true}, {Round: 2, Bcasts: 1}}
+}
+
+// Mark writes a harness marker (for example the return of an API call) onto
+// the tape, so that hand-offs can be ordered against it.
+func (t *Tape) Mark(kind, name string) {
+	t.add(Event{Kind: kind, Session: name})
 }
